@@ -43,6 +43,10 @@ PROBES = ['T_jit', 'T_remat', 'T_cond', 'T_switch', 'T_while_loop', 'T_fori_loop
 CROSS_RUN_STATE = True
 
 
+class P_EarlyFailure(Exception):
+  pass
+
+
 class ProgFault(Exception):
   pass
 
@@ -127,6 +131,10 @@ def generate(rs, tier):
       ops.append(dict(op='returned', how=g.choice(['meta', 'meta', 'reattach']), which=g.randrange(4), node=g.randrange(64), key=g.choice(['tag', 'note']), value=g.choice(['x', 'y', 3])))
     else:
       ops.append(dict(op='gc'))
+  if g.random() < 0.15:
+    # a cached_partial call that fails before any NNX transform picks the cached graph up (the wrapped function is no
+    # transform / raises first): the calls that follow in the history must not notice
+    ops.insert(g.randrange(len(ops) + 1), dict(op='cp_fails_early', node=g.randrange(64), how=g.choice(['not_a_transform', 'raises_first'])))
   if g.random() < 0.2:
     # some Variables carry a user set-hook: program assignments go through it on both sides; the write-back of a
     # transform is not a user assignment
@@ -562,6 +570,39 @@ class TwinHeaps:
       return
     if k == 'returned':
       self.returned_op(oi, op)
+      return
+    if k == 'cp_fails_early':
+      node = self.A.real[self.A.nodes[op['node'] % len(self.A.nodes)]]
+      if isinstance(node, nnx.Variable) or not nnx.graph.is_graph_node(node):
+        return
+
+      def plain(m, x):
+        return x
+
+      def raises_first(m, x):
+        raise P_EarlyFailure('raised before any transform ran')
+
+      try:
+        nnx.cached_partial(plain if op['how'] == 'not_a_transform' else raises_first, node)(np.float32(1.0))
+        outcome = 'ok'
+      except BaseException as e:  # noqa: BLE001
+        outcome = type(e).__name__
+      res.fault('cached_partial_fails_early')
+      # nothing is asserted about the failing call itself; the transformed calls that follow run against the eager twin
+      # as always (a context slot left set would make the next one fail or run on the wrong graph)
+      v = nnx.Variable(jnp.asarray(1.0, jnp.float32))
+
+      def bump(v):
+        v.value = v.value + 1.0
+
+      try:
+        nnx.jit(bump)(v)
+      except Exception as e:  # noqa: BLE001
+        raise Violation('failed-call-poisons-next', f'op {oi}: after a cached_partial call that failed early ({op["how"]}: {outcome}) an unrelated nnx.jit call raised {type(e).__name__}: {str(e)[:200]}')
+      if float(v.value) != 2.0:
+        raise Violation('failed-call-poisons-next', f'op {oi}: after a cached_partial call that failed early an unrelated nnx.jit call left its Variable at {float(v.value)} instead of 2.0')
+      self.compare(f'op {oi} cp_fails_early')
+      self.log.add(oi, 'cp_fails_early', op['how'], outcome)
       return
     if k == 'edit':
       e = op['edit']
